@@ -124,9 +124,52 @@ add("ewm(halflife=1).mean", "ewm.mean", "last", lambda d: d.x.ewm(halflife=1).me
 add("rolling(2).var[ddof=0]", "rolling(n).var", "concat", lambda d: d.x.rolling(2).var(ddof=0))
 add("expanding.var[ddof=0]", "expanding.var", "last", lambda d: d.x.expanding().var(ddof=0))
 
-ROWS = [k for k in SPECS if not any(t in k for t in ("ns)", "s)"))]
+# --- second catalogue: asymmetric smoothing parameters, the column picked after the wrapper, positional / extra
+#     arguments, boundary parameters, a stateful result chained onto another one --------------------------------------
+SECOND = []
+
+
+def add2(key, site, mode, f, classify=GEN, cols=("x",)):
+    add(key, site, mode, f, classify=classify, cols=cols)
+    SECOND.append(key)
+
+
+add2("ewm(com=3).mean", "ewm.mean", "last", lambda d: d.x.ewm(com=3).mean(), classify=EWM)
+add2("ewm(span=4).mean", "ewm.mean", "last", lambda d: d.x.ewm(span=4).mean(), classify=EWM)
+add2("ewm(halflife=2).mean", "ewm.mean", "last", lambda d: d.x.ewm(halflife=2).mean(), classify=EWM)
+add2("ewm(alpha=.2).mean", "ewm.mean", "last", lambda d: d.x.ewm(alpha=0.2).mean(), classify=EWM)
+add2("ewm(alpha=1).mean", "ewm.mean", "last", lambda d: d.x.ewm(alpha=1).mean(), classify=EWM)
+add2("ewm(com=0).mean", "ewm.mean", "last", lambda d: d.x.ewm(com=0).mean(), classify=EWM)
+add2("frame.ewm(span=4).x.mean", "ewm.mean", "last", lambda d: d.ewm(span=4).x.mean(), classify=EWM)
+add2("frame.ewm(halflife=2).x.mean", "ewm.mean", "last", lambda d: d.ewm(halflife=2).x.mean(), classify=EWM)
+add2("frame.ewm(com=3)[[x,y]].mean", "ewm.mean", "last", lambda d: d.ewm(com=3)[["x", "y"]].mean(), classify=EWM, cols=("x", "y"))
+add2("frame.rolling(3).x.sum", "rolling(n).sum", "concat", lambda d: d.rolling(3).x.sum())
+add2("frame.rolling(2).x.mean", "rolling(n).mean", "concat", lambda d: d.rolling(2).x.mean())
+add2("frame.rolling(2)[[x,y]].sum", "rolling(n).sum", "concat", lambda d: d.rolling(2)[["x", "y"]].sum(), cols=("x", "y"))
+add2("frame.expanding.x.sum", "expanding.sum", "last", lambda d: d.expanding().x.sum(), classify=EXPSUM)
+add2("frame.expanding.x.mean", "expanding.mean", "last", lambda d: d.expanding().x.mean())
+add2("frame.expanding[[x,y]].count", "expanding.count", "last", lambda d: d.expanding()[["x", "y"]].count(), cols=("x", "y"))
+add2("rolling(2).quantile(.5)", "rolling(n).quantile", "concat", lambda d: d.x.rolling(2).quantile(0.5))
+add2("rolling(3).quantile(.25)", "rolling(n).quantile", "concat", lambda d: d.x.rolling(3).quantile(0.25))
+add2("rolling(2).std(0)", "rolling(n).std", "concat", lambda d: d.x.rolling(2).std(0))
+add2("rolling(3).var(0)", "rolling(n).var", "concat", lambda d: d.x.rolling(3).var(0))
+add2("rolling(3).std[ddof=2]", "rolling(n).std", "concat", lambda d: d.x.rolling(3).std(ddof=2))
+add2("rolling(2).sum.cumsum", "cumsum", "concat", lambda d: d.x.rolling(2).sum().cumsum(), classify=CUM)
+add2("cumsum.rolling(2).sum", "rolling(n).sum", "concat", lambda d: d.x.cumsum().rolling(2).sum())
+add2("cumsum.cummax", "cummax", "concat", lambda d: d.x.cumsum().cummax(), classify=CUM)
+add2("(x+1).cumsum", "cumsum", "concat", lambda d: (d.x + 1).cumsum(), classify=CUM)
+add2("cumsum+1", "cumsum", "concat", lambda d: d.x.cumsum() + 1, classify=CUM)
+add2("[x>1].cumsum", "cumsum", "concat", lambda d: d[d.x > 1].x.cumsum(), classify=CUM)
+add2("expanding.std[ddof=2]", "expanding.std", "last", lambda d: d.x.expanding().std(ddof=2))
+SECOND_T = []
+for w in ("2ns",):
+    add("frame.rolling(%s).x.sum" % w, "rolling(time).sum", "concat", lambda d, w=w: d.rolling(w).x.sum())
+    add("rolling(%s).mean" % w, "rolling(time).mean", "concat", lambda d, w=w: d.x.rolling(w).mean())
+    SECOND_T += ["frame.rolling(%s).x.sum" % w, "rolling(%s).mean" % w]
+
+ROWS = [k for k in SPECS if not any(t in k for t in ("ns)", "s)")) and k not in SECOND]
 ROWS5 = [k for k in ROWS if not k.startswith(("rolling(1)", "rolling(2)"))]
-T_NS = [k for k in SPECS if "ns)" in k]
+T_NS = [k for k in SPECS if "ns)" in k and k not in SECOND_T]
 T_NS_CORE = [k for k in T_NS if "[frame]" not in k]
 T_S = [k for k in SPECS if "s)" in k and "ns)" not in k]
 LONG = ["rolling(3).sum", "rolling(3).count", "rolling(2).mean", "cumsum", "expanding.sum", "ewm(com=1).mean"]
@@ -142,13 +185,21 @@ def plan(ctx):
                 F.Suite(T_NS_CORE, "v", {4: 1}, grid="ns"),
                 F.Suite(T_S, "v", {1: 2, 2: 2, 3: 2}, grid="s"),
                 F.Suite(LONG, "one", {5: 1, 6: 1, 7: 0}),
-                F.Suite(CUM_T, "v", {2: 2, 3: 2, 4: 1}, grid="ns")]
+                F.Suite(CUM_T, "v", {2: 2, 3: 2, 4: 1}, grid="ns"),
+                F.Suite(SECOND, "v", {1: 2, 2: 2, 3: 2, 4: 1}),
+                F.Suite(SECOND, "inc", {3: 2, 4: 2, 5: 0}),
+                F.Suite(LONG, "inc", {5: 1, 6: 0}),
+                F.Suite(SECOND_T, "v", {2: 2, 3: 2, 4: 0}, grid="ns")]
     return [F.Suite(ROWS, "v", {1: 1, 2: 1, 3: 1}),
             F.Suite(T_NS, "v", {1: 1, 2: 1}, grid="ns"),
             F.Suite(T_NS_CORE, "v", {3: 1}, grid="ns"),
             F.Suite(T_S, "v", {1: 1, 2: 1}, grid="s"),
             F.Suite(LONG, "one", {5: 0, 6: 0}),
-            F.Suite(CUM_T, "v", {2: 1, 3: 1}, grid="ns")]
+            F.Suite(CUM_T, "v", {2: 1, 3: 1}, grid="ns"),
+            F.Suite(SECOND, "v", {1: 1, 2: 1, 3: 1}),
+            F.Suite(SECOND, "inc", {3: 1, 4: 0}),
+            F.Suite(LONG + ["ewm(com=3).mean", "frame.rolling(3).x.sum"], "inc", {5: 0}),
+            F.Suite(SECOND_T, "v", {2: 1, 3: 1}, grid="ns")]
 
 
 RULE = ("every table of R rows over x in {1,2,NaN} (y = a second column with a shifted NaN pattern), every composition "
